@@ -162,6 +162,9 @@ def events(w):
         ev.append(('relay:' + nm, 'block-relay', node))
         if nm.startswith('extend-a') or nm.startswith('grow'):
             ev.append(('setcs:' + nm, 'block-setcs', node))
+        if nm in ('extend-a', 'extend-b'):
+            # the same head change through the bulk-download path (the block arrives as the answer to a request)
+            ev.append(('bulk:' + nm, 'block-bulk', node))
     pool = w.pool()
     if pool:
         ev.append(('net:resubmit-pooled', 'tx-net', pool[0]))
@@ -212,10 +215,10 @@ def step(w, ev, bad, trace):
         outcome = 'admitted' if admitted else 'refused'
     else:
         node = obj
-        if kind == 'block-relay':
+        if kind in ('block-relay', 'block-bulk'):
             from skepticoin.networking.messages import DataMessage, DATA_BLOCK
             w.net.clock.t = max(w.net.clock.t, node.ts)
-            w.peer().send(DataMessage(DATA_BLOCK, world.from_wire(node.block)))
+            w.peer().send(DataMessage(DATA_BLOCK, world.from_wire(node.block)), in_response_to=0 if kind == 'block-relay' else 77)
         else:
             w.net.current = w.node
             cs = w.node.cm.coinstate
@@ -356,7 +359,7 @@ def run(ctx):
         'no_trace_probes': stats.get('probes', 0),
         'depth': depth, 'exhaustive': True,
         'rule': "BFS over operation sequences to depth %d (submissions via the network handler and via add_transaction_to_pool; "
-                "head changes via relayed blocks and via set_coinstate), state = history replayed on a fresh node, de-duplicated "
+                "head changes via relayed blocks, via blocks answering a request (bulk path) and via set_coinstate), state = history replayed on a fresh node, de-duplicated "
                 "on (stored blocks, head, ordered pool ids); reference pool rules checked after every operation" % depth,
     })
 
